@@ -249,6 +249,10 @@ func (s *redisServer) execGet(w *bufio.Writer, key []byte) error {
 	if val == nil || !val.Found {
 		return writeNil(w)
 	}
+	if val.Value == nil {
+		// An existing key holding the empty string is an empty bulk, not a nil reply.
+		return writeBulk(w, []byte{})
+	}
 	return writeBulk(w, val.Value)
 }
 
@@ -368,6 +372,9 @@ func (s *redisServer) execMGet(w *bufio.Writer, keys [][]byte) error {
 			continue
 		}
 		results[i] = val.Value
+		if results[i] == nil {
+			results[i] = []byte{}
+		}
 	}
 	return writeArray(w, results)
 }
